@@ -373,10 +373,6 @@ static void parse_args(int argc, char **argv) {
 
   if (input_paths.len == 0)
     error("no input files");
-
-  // -E implies that the input is the C macro language.
-  if (opt_E)
-    opt_x = FILE_C;
 }
 
 static FILE *open_file(char *path) {
@@ -793,6 +789,10 @@ static FileType get_file_type(char *filename) {
   if (endswith(filename, ".s"))
     return FILE_ASM;
 
+  // -E implies that any other input is in the C macro language.
+  if (opt_E)
+    return FILE_C;
+
   error("<command line>: unknown file extension: %s", filename);
 }
 
@@ -855,7 +855,8 @@ int main(int argc, char **argv) {
 
     // Handle .s
     if (type == FILE_ASM) {
-      if (opt_S)
+      // Nothing is preprocessed or compiled in an assembler file.
+      if (opt_S || opt_E)
         continue;
 
       if (opt_c) {
